@@ -319,6 +319,39 @@ func RunMulti(in MultiIn) (MultiOut, error) {
 	return out, nil
 }
 
+// withBalanceProbes inserts, before every read checkpoint and for every ledger created so far, a
+// DRY-RUN create whose postings draw on three bounded (non-world) balances at once — the
+// GetBalances statement then carries several (account, asset) pairs, and its answer (sufficient
+// funds or not) must be the one the ledger's OWN volumes give.
+func withBalanceProbes(c *gen.Ctx, steps []MultiStep) []MultiStep {
+	var ret []MultiStep
+	created := []int{}
+	clock := map[int]int64{}
+	for _, st := range steps {
+		if st.Reads {
+			for _, l := range created {
+				srcs := append([]string{}, wlctrl.Accounts[1:]...)
+				c.R.Shuffle(len(srcs), func(a, d int) { srcs[a], srcs[d] = srcs[d], srcs[a] })
+				ps := []memstore.CPosting{}
+				for k := 0; k < 3; k++ {
+					ps = append(ps, memstore.CPosting{S: srcs[k], D: "world", A: gen.Pick(c.R, wlctrl.Assets), N: []string{"1", "2", "5", "10"}[c.R.Intn(4)]})
+				}
+				clock[l] += 1000000
+				op := wlctrl.Op{K: wlctrl.KCreateP, Now: clock[l], Dry: true, Postings: ps, Meta: [][2]string{}}
+				ret = append(ret, MultiStep{Create: -1, L: l, Op: &op})
+			}
+		}
+		if st.Create >= 0 && st.Op == nil && !st.Reads {
+			created = append(created, st.Create)
+		}
+		if st.Op != nil && st.Op.Now > clock[st.L] {
+			clock[st.L] = st.Op.Now
+		}
+		ret = append(ret, st)
+	}
+	return ret
+}
+
 func init() {
 	gen.Register("multiledger", func(c *gen.Ctx) error {
 		defer closeBackend()
@@ -421,6 +454,7 @@ func init() {
 					}
 				}
 				in.Steps = append(in.Steps, MultiStep{Create: -1, L: -1, Reads: true})
+				in.Steps = withBalanceProbes(c, in.Steps)
 			}
 			in.Prop = Prop
 			out, err := RunMulti(in)
